@@ -114,8 +114,8 @@ def parallel_th(th, cmd, inputs, chunks=None, timeout=600, extra_env=None):
     n = len(inputs)
     if n == 0:
         return []
-    size = (n + chunks - 1) // chunks
-    parts = [inputs[i:i + size] for i in range(0, n, size)]
+    chunks = min(chunks, n)
+    parts = [inputs[i::chunks] for i in range(chunks)]      # round robin: expensive inputs tend to be neighbours
     with ThreadPoolExecutor(max_workers=len(parts)) as ex:
         res = list(ex.map(lambda p: run_th(th, cmd, p, timeout, extra_env) + (p,), parts))
     return res
